@@ -20,6 +20,8 @@ pub fn units(tier: &str, _seed: u64) -> Vec<String> {
     // two services whose mix may differ from step to step, with surplus production at some steps: the service
     // shares of step A and step B must be the same annual shares
     v.push(unit(&[("shape", "U:CAL:ELECTRICIDAD;U:REF:ELECTRICIDAD;P:EL_INSITU"), ("n", "2"), ("fs", "PEN"), ("k", "sym"), ("lm", "0")]));
+    // a user file that spells out every factor, step B grid supply lines included (never used by the method)
+    v.push(unit(&[("shape", "U:CAL:ELECTRICIDAD;P:EL_INSITU;U:ACS:GASNATURAL"), ("n", "1"), ("fs", "FULL"), ("k", "sym"), ("lm", "0"), ("bud", "100")]));
     // cogeneration with import at one step and export at another (step A and step B results of opposite sign)
     v.push(unit(&[("shape", "U:ACS:ELECTRICIDAD;P:EL_COGEN;U:COGEN:GASNATURAL"), ("n", "2"), ("fs", "PEN"), ("k", "sym"), ("lm", "0"), ("bud", "100")]));
     if tier == "thorough" {
